@@ -120,8 +120,11 @@ def native_replay(work, nat_overlay, rel, cases, timeout=600):
     return {r["id"]: r for r in res}
 
 
+TIER = 0
+
+
 def case_of(pkg, entry, w, cid):
-    return {"id": cid, "entry": entry, "nondets": w.get("Nondets") or [], "choices": w.get("Choices") or []}
+    return {"id": cid, "entry": entry, "nondets": w.get("Nondets") or [], "choices": w.get("Choices") or [], "tier": TIER}
 
 
 def obs_of(w):
@@ -166,7 +169,8 @@ def main():
         return 2
     spec = CH.CHECKS[prop]
     t0 = time.time()
-    work = tempfile.mkdtemp(prefix=f"vcheck_{prop}_", dir=os.path.join(VERIF, "work") if os.path.isdir(os.path.join(VERIF, "work")) else None)
+    os.makedirs(os.path.join(VERIF, "work"), exist_ok=True)
+    work = tempfile.mkdtemp(prefix=f"vcheck_{prop}_", dir=os.path.join(VERIF, "work"))
     try:
         return run_check(prop, tier, seed, spec, work, t0)
     finally:
@@ -175,6 +179,8 @@ def main():
 
 
 def run_check(prop, tier, seed, spec, work, t0):
+    global TIER
+    TIER = 1 if tier == "thorough" else 0
     jobs = spec["jobs"](tier) if callable(spec["jobs"]) else spec["jobs"][tier]
     pkgs = sorted({j["pkg"] for j in jobs})
     dep_ov = {v: os.path.join(VERIF, r) for v, r in spec.get("dep_overlays", {}).items()}
@@ -184,7 +190,7 @@ def run_check(prop, tier, seed, spec, work, t0):
         "workers": int(os.environ.get("VERIF_WORKERS", "0") or 0) or (os.cpu_count() or 4),
         "timeout_ms": spec.get("timeout_ms", {}).get(tier, 20000 if tier == "quick" else 120000),
         "models": spec.get("models", {}), "no_init_pkgs": spec.get("no_init_pkgs", []),
-        "verbose": bool(os.environ.get("VERIF_VERBOSE")),
+        "verbose": bool(os.environ.get("VERIF_VERBOSE")), "tier": 1 if tier == "thorough" else 0,
     }
     out, err, engine_s = run_engine(work, espec)
     inconclusive = []
